@@ -265,11 +265,37 @@ func init() {
 
 func runC17(c *CheckCtx) {
 	names := []string{"lisperror.NewLispError", "lisperror.GetPosition", "(*types.Position).Copy", "(*types.Position).Close",
-		"(*reader.tokenReader).peek", "(*reader.tokenReader).next", "reader.tokenize"}
+		"(*reader.tokenReader).peek", "(*reader.tokenReader).next", "reader.tokenize", "reader.Read_str", "lisp.READ"}
+	// rows and columns are counted by the scanner on the text it is given: the text (and, from READ,
+	// the cursor naming the module) must reach the tokenizer as the caller passed it
+	savedHook := c.eng.hooks.onCallArgs
+	defer func() { c.eng.hooks.onCallArgs = savedHook }()
+	c.eng.hooks.onCallArgs = func(a *Act, st *State, cc *ssa.CallCommon, args []Term, pos token.Pos) {
+		sc := cc.StaticCallee()
+		if sc == nil || a.parent != nil {
+			return
+		}
+		root := a.tr.rootAct
+		var goal Term
+		switch {
+		case fnName(root.fn) == "reader.Read_str" && fnName(sc) == "reader.tokenize" && len(args) >= 1:
+			goal = Eq(args[0], root.args[0])
+		case fnName(root.fn) == "lisp.READ" && fnName(sc) == "reader.Read_str" && len(args) >= 2:
+			goal = And(Eq(args[0], root.args[0]), Eq(args[1], root.args[1]))
+		default:
+			return
+		}
+		loc, src := a.srcLine(pos)
+		fname := fnName(root.fn)
+		base := fmt.Sprintf("%s/position/text-reaches-the-tokenizer-unchanged/«%s»", fname, normSrc(src))
+		a.tr.oblCount[base]++
+		a.tr.obls = append(a.tr.obls, &Obligation{Name: fmt.Sprintf("%s#%d", base, a.tr.oblCount[base]), Kind: "position", Fn: fname, Pos: loc,
+			Src: "the text (and cursor) handed on is the caller's", Guard: st.reach, Goal: goal})
+	}
 	jobs := c.jobsFor(names, func(f *ssa.Function) *Job {
 		return &Job{Fn: f, PanicMode: "ignore"}
 	})
-	c.runJobs(jobs, func(o *Obligation) bool { return o.Kind == "post" })
+	c.runJobs(jobs, func(o *Obligation) bool { return o.Kind == "post" || o.Kind == "position" })
 	c.assumptions["A-SCAN: token rows are text lines (third-party scanner); the scanner is modelled as a state machine whose Pos/TokenText are functions of the number of Scan calls"] = true
 	c.assumptions["not covered: spans of the lists built by read_list (attempted, dropped: the loop-carried cursor facts did not discharge), the form EVAL passes to NewLispError at each error site, positions through library macros written in lisp"] = true
 }
